@@ -504,13 +504,18 @@ def process_fn(src_obj, containers, name, opts, subs, log):
     loops = find_loops(body)
     loop_edits = {}
     for kind, arg, lines in subs:
-        if kind in ('loop', 'iter'):
+        if kind in ('loop', 'iter', 'loop-end'):
             n = int(arg.split()[0])
             if n < 1 or n > len(loops):
                 raise LostAnchor(f'{name}: loop {n} not found ({len(loops)} loops)')
             loop_edits.setdefault(n, []).append((kind, arg, lines))
     for n in sorted(loop_edits, reverse=True):
         kw, bo, kwname = loops[n - 1]
+        for kind, arg, lines in loop_edits[n]:
+            if kind == 'loop-end':
+                cb = match_close(blank(body), bo)
+                pre = body[:cb].rstrip()
+                body = pre + ('' if pre.endswith(';') else ';') + '\n' + '\n'.join(lines) + '\n' + body[cb:]
         for kind, arg, lines in loop_edits[n]:
             if kind == 'loop':
                 ins = '\n' + '\n'.join(lines) + '\n'
@@ -526,6 +531,21 @@ def process_fn(src_obj, containers, name, opts, subs, log):
                 body = body[:kw] + seg[:mi.end()] + ' ' + ghost + ':' + seg[mi.end():] + body[bo:]
                 log.append('R6 ghost iterator')
     for kind, arg, lines in subs:
+        if kind == 'after-all':
+            pos = 0
+            cnt = 0
+            while True:
+                idx = body.find(arg, pos)
+                if idx < 0:
+                    break
+                le = body.find('\n', idx)
+                le = len(body) if le < 0 else le
+                ins = '\n' + '\n'.join(lines)
+                body = body[:le] + ins + body[le:]
+                pos = le + len(ins)
+                cnt += 1
+            if cnt == 0:
+                raise LostAnchor(f'{name}: hint anchor `{arg}` not found')
         if kind in ('after', 'before'):
             idx = body.find(arg)
             if idx < 0:
